@@ -23,10 +23,49 @@ theorem file_blocks_transparent (blk rblk : Nat) (hb : 0 < blk) (hr : 0 < rblk) 
   writeFileLoop_plain blk rblk hb hr content.length content (Nat.le_refl _)
 
 /-- the block sizes of the current source (regenerated from src/Http.cpp) are usable -/
-theorem block_sizes_ok : 0 < sendBlock ∧ sendBlock < 4294967296 ∧ 0 < recvBlock := by decide
+theorem block_sizes_ok : 0 < sendBlock ∧ sendBlock < 2147483648 ∧ 0 < recvBlock := by decide
 
 
-/-! ## requests: what `Http::request` sends is what `HttpRequest::read` hands to the handler -/
+/-! ## requests: what was put on the wire is what `HttpRequest::read` hands to the handler -/
+
+/-- any request as bytes on the wire: first line, header lines, the framed body `w` that carries `body` -/
+structure Wire where
+  method : Bytes
+  target : Bytes
+  proto : Bytes
+  hs : List (Bytes × Bytes)
+  w : Bytes
+  body : Bytes
+
+def Wire.bytes (x : Wire) : Bytes :=
+  x.method ++ [32] ++ x.target ++ [32] ++ x.proto ++ crlf ++ headerLines x.hs ++ crlf ++ x.w
+
+/-- the request object the handler must get: the method, target and protocol of the first line, the headers as stored
+(`norm`: each line under its capitalized name, a later line replacing an earlier one of the same name), the body -/
+def Wire.expected (x : Wire) : Request :=
+  { method := x.method, resource := x.target, proto := x.proto, headers := norm x.hs, body := x.body,
+    path := (splitTarget x.target).1, querystring := (splitTarget x.target).2.1, fragment := (splitTarget x.target).2.2 }
+
+/-- well-formed: words without blanks on the first line, HTTP/1.0 or 1.1, header lines without CR/LF or outer blanks that
+fit `readLine`, and a body framing that `readBody` takes off the connection (`BodyReads`: by Content-Length, by the
+sender's chunks, by ANY RFC 7230 chunked body — see `reads_of_framed`, `reads_of_rfc_chunked` — or no body) -/
+structure Wire.WF (x : Wire) : Prop where
+  wfMethod : WFWord x.method
+  wfTarget : WFWord x.target
+  isProto : IsProto x.proto
+  fit : x.method.length + x.target.length + 11 ≤ 16001
+  wfHeaders : WFHeaders x.hs
+  reads : BodyReads (norm x.hs) x.w x.body
+
+theorem reads_of_framed {H : Dic} {w body : Bytes} (h : Framed sendBlock H w body) : BodyReads H w body :=
+  framed_reads sendBlock sendBlock_pos sendBlock_lt h
+
+/-- **request_exact (any sender).**  On any live connection whose pending bytes start with a well-formed request — in any
+fragmentation, followed by anything — the reader returns exactly that request and stops exactly behind it. -/
+theorem wire_request_exact (x : Wire) (h : x.WF) (rest : Bytes) (i : Inp) (hi : Live i) (hd : i.data = x.bytes ++ rest) :
+    ∃ i' : Inp, readRequest i = (x.expected, i') ∧ i'.data = rest ∧ Live i' :=
+  readRequest_wire x.method x.target x.proto x.hs x.w x.body rest h.wfMethod h.wfTarget h.isProto h.fit h.wfHeaders h.reads i hi
+    (by rw [hd]; simp [Wire.bytes, List.append_assoc])
 
 /-- the request as the handler must see it (written from the HTTP semantics, not from the code): same method, same
 target, HTTP/1.1, the same body bytes, and every header that was sent retrievable under its name -/
@@ -41,12 +80,16 @@ structure SeesRequest (q : Request) (method target : Bytes) (sent : List (Bytes 
 def wireHeaders (method target host : Bytes) (port : Nat) (hs : Dic) (body : Bytes) : List (Bytes × Bytes) :=
   (sHostName, host ++ [58] ++ utoa port) :: (clientMsg method target host port true hs body).headers
 
+/-- what `Http::request` sends, as a `Wire` -/
+def clientWire (method target host : Bytes) (port : Nat) (hs : Dic) (body : Bytes) : Wire :=
+  { method := method, target := target, proto := sHttp11, hs := wireHeaders method target host port hs body,
+    w := writeBody (isChunked (clientMsg method target host port true hs body).headers) sendBlock body, body := body }
+
 /-- the request object the reader builds from a well-formed client request -/
 def expectedRequest (method target host : Bytes) (port : Nat) (hs : Dic) (body : Bytes) : Request :=
-  { method := method, resource := target, proto := sHttp11, headers := norm (wireHeaders method target host port hs body), body := body,
-    path := (splitTarget target).1, querystring := (splitTarget target).2.1, fragment := (splitTarget target).2.2 }
+  (clientWire method target host port hs body).expected
 
-/-- what is required of a request for the round trip: words without blanks on the first line, a `Host` value and
+/-- what is required of a client request for the round trip: words without blanks on the first line, a `Host` value and
 header lines without CR/LF or outer blanks that fit `readLine`, no hand-made framing headers, a body that fits an `int` -/
 structure WFRequest (method target host : Bytes) (port : Nat) (hs : Dic) (body : Bytes) : Prop where
   wfMethod : WFWord method
@@ -58,34 +101,36 @@ structure WFRequest (method target host : Bytes) (port : Nat) (hs : Dic) (body :
   noFraming : NoFraming hs
   bodyFits : body.length < 2147483648
 
-/-- exact form, on any live connection `i` whose pending bytes start with the serialized request -/
-theorem request_exact (method target host : Bytes) (port : Nat) (hs : Dic) (body rest : Bytes)
-    (h : WFRequest method target host port hs body) (i : Inp) (hi : Live i)
-    (hd : i.data = serialize (clientMsg method target host port true hs body) ++ rest) :
-    ∃ i' : Inp, readRequest i = (expectedRequest method target host port hs body, i') ∧ i'.data = rest ∧ Live i' ∧
-      WFHeaders (wireHeaders method target host port hs body) := by
+theorem clientWire_bytes (method target host : Bytes) (port : Nat) (hs : Dic) (body : Bytes) :
+    serialize (clientMsg method target host port true hs body) = (clientWire method target host port hs body).bytes := by
+  simp [serialize, serializeWith, clientMsg, clientWire, wireHeaders, Wire.bytes, headerBlock, headerLines, sHostName, List.append_assoc]
+
+theorem clientWire_wf (method target host : Bytes) (port : Nat) (hs : Dic) (body : Bytes)
+    (h : WFRequest method target host port hs body) : (clientWire method target host port hs body).WF := by
   obtain ⟨hm, ht, hfit, hhp, hhpfit, hwf, hres, hbody⟩ := h
-  obtain ⟨hfr, hmem⟩ := client_framed sendBlock (host ++ [58] ++ utoa port) hs body sendBlock_pos hwf hres hhp.1
-  have hwf' : WFHeaders ((sHostName, host ++ [58] ++ utoa port) ::
-      (if body.length ≠ 0 then setHeader hs sContentLength (utoa body.length) else hs)) := by
-    intro x hx
+  obtain ⟨hfr, hmem⟩ := client_framed sendBlock (host ++ [58] ++ utoa port) hs body sendBlock_pos hwf hres hhp.1 hbody
+  refine ⟨hm, ht, Or.inl rfl, hfit, ?_, ?_⟩
+  · intro x hx
     rcases List.mem_cons.mp hx with h | h
     · subst h; exact ⟨wf_name_host, hhp, hhpfit⟩
-    · rcases hmem x h with h | h
+    · rcases hmem x (by simpa [clientMsg] using h) with h | h
       · subst h
         refine ⟨wf_name_cl, wf_digits_value _, ?_⟩
         have := utoa_length body.length hbody
         unfold FitsLine; simp [sContentLength]; omega
       · exact hwf x h
-  have hwire : i.data =
-      method ++ [32] ++ target ++ [32] ++ sHttp11 ++ crlf ++
-        headerLines ((sHostName, host ++ [58] ++ utoa port) :: (if body.length ≠ 0 then setHeader hs sContentLength (utoa body.length) else hs))
-        ++ crlf ++ writeBody (isChunked (if body.length ≠ 0 then setHeader hs sContentLength (utoa body.length) else hs)) sendBlock body ++ rest := by
-    rw [hd]
-    simp [serialize, serializeWith, clientMsg, headerBlock, headerLines, sHostName, List.append_assoc]
-  obtain ⟨i', hread, hdat, hlive⟩ := readRequest_wire sendBlock sendBlock_pos sendBlock_lt method target _ _ body rest hm ht hfit hwf' hfr
-    i hi hwire
-  exact ⟨i', hread, hdat, hlive, hwf'⟩
+  · have := reads_of_framed hfr
+    simpa [clientWire, wireHeaders, clientMsg] using this
+
+/-- exact form for the library's client, on any live connection `i` whose pending bytes start with the serialized request -/
+theorem request_exact (method target host : Bytes) (port : Nat) (hs : Dic) (body rest : Bytes)
+    (h : WFRequest method target host port hs body) (i : Inp) (hi : Live i)
+    (hd : i.data = serialize (clientMsg method target host port true hs body) ++ rest) :
+    ∃ i' : Inp, readRequest i = (expectedRequest method target host port hs body, i') ∧ i'.data = rest ∧ Live i' ∧
+      WFHeaders (wireHeaders method target host port hs body) := by
+  have hwf := clientWire_wf method target host port hs body h
+  obtain ⟨i', h1, h2, h3⟩ := wire_request_exact _ hwf rest i hi (by rw [hd, clientWire_bytes])
+  exact ⟨i', h1, h2, h3, hwf.wfHeaders⟩
 
 /-- **frame_roundtrip (requests).**  For every method, target, header set and body (of any length), every
 fragmentation `cuts` of the byte stream and whatever follows on the connection (`rest`): the server-side reader returns
@@ -100,10 +145,74 @@ theorem request_roundtrip (method target host : Bytes) (port : Nat) (hs : Dic) (
     (Inp.ofBytes (serialize (clientMsg method target host port true hs body) ++ rest) cuts) ⟨rfl, rfl⟩ rfl
   refine ⟨_, i', hread, hdat, hlive, ⟨rfl, rfl, rfl, rfl, ?_⟩⟩
   intro nv hnv huniq
-  have := norm_lookup _ [] nv (fun x hx => (hwf' x hx).2.1.1) hnv huniq
-  show header (norm _) nv.1 = nv.2
+  have := norm_lookup (wireHeaders method target host port hs body) [] nv (fun x hx => (hwf' x hx).2.1.1) hnv huniq
+  show header (norm (wireHeaders method target host port hs body)) nv.1 = nv.2
   unfold header norm
   rw [this]; rfl
+
+/-! ## several exchanges on one connection -/
+
+/-- a request after which the server reads the connection again: well formed, a target with a path, and the connection
+is kept — HTTP/1.1 without `Connection: close`, or any version with `Connection: keep-alive` (`keepOf`).  Any method
+(an OPTIONS request answered by the library itself included), any body framing. -/
+structure Wire.Keeps (x : Wire) : Prop where
+  wf : x.WF
+  hasPath : (splitTarget x.target).1 ≠ []
+  stays : keepOf x.expected = true
+
+/-- one turn of the server loop on a connection whose pending bytes start with a request: the handler gets exactly
+that request (or none, for an OPTIONS request the library answers itself), the bytes written back are the interim answer
+to `Expect: 100-continue` (if asked) and the response for that request alone, the connection is kept and positioned
+after the request -/
+theorem serveStep_exact (opt : Bool) (base : Bytes) (p : Plan) (x : Wire) (hx : x.Keeps) (rest : Bytes) (i : Inp) (hi : Live i)
+    (hd : i.data = x.bytes ++ rest) :
+    ∃ i' : Inp, serveStep opt base p i =
+        (if (serve1 opt x.expected p [] base).called then some x.expected else none,
+         interimOf x.expected.headers ++ (serve1 opt x.expected p [] base).wire, true, i') ∧
+      i'.data = rest ∧ Live i' := by
+  obtain ⟨i', hread, hdat, hlive⟩ := wire_request_exact x hx.wf rest i hi hd
+  have hne : i.data.isEmpty = false := by
+    rw [hd]
+    obtain ⟨a, t, hm⟩ := List.exists_cons_of_ne_nil hx.wf.wfMethod.1
+    simp [Wire.bytes, hm]
+  have hvalid : x.expected.valid = true := by
+    have h1 : x.method.isEmpty = false := by
+      obtain ⟨a, t, hm⟩ := List.exists_cons_of_ne_nil hx.wf.wfMethod.1; rw [hm]; rfl
+    have h2 : (splitTarget x.target).1.isEmpty = false := by
+      obtain ⟨a, t, hm⟩ := List.exists_cons_of_ne_nil hx.hasPath; rw [hm]; rfl
+    have h3 : x.proto.isEmpty = false := by
+      obtain ⟨a, t, hm⟩ := List.exists_cons_of_ne_nil (proto_ok hx.wf.isProto).1; rw [hm]; rfl
+    simp [Request.valid, Wire.expected, h1, h2, h3]
+  have hkeep : (serve1 opt x.expected p [] base).keep = true := by
+    unfold serve1; rw [serveOne_keep]; exact hx.stays
+  refine ⟨i', ?_, hdat, hlive⟩
+  unfold serveStep
+  simp only [hne, live_dead hi, Bool.false_eq_true, or_self, if_false]
+  rw [hread]
+  simp only [hvalid, hlive.2, hlive.1, not_true_eq_false, Bool.false_eq_true, or_self, if_false, hkeep]
+
+/-- **keepalive_seq.**  Requests sent one after the other on the same connection — by any sender, pipelined or not, in
+any fragmentation (`i` is any live connection state), with bodies framed by length or by chunks, kept alive by HTTP/1.1
+or by `Connection: keep-alive` — are served exactly as if each had arrived alone on a fresh connection: the reader
+consumes exactly one message per turn. -/
+theorem keepalive_seq (opt : Bool) (base : Bytes) : ∀ (l : List (Wire × Plan)) (i : Inp), Live i →
+    (∀ xp ∈ l, xp.1.Keeps) → i.data = (l.map (fun xp => xp.1.bytes)).flatten →
+    serveConn opt base (l.map (·.2)) i =
+      l.map (fun xp => ((serveStep opt base xp.2 (Inp.ofBytes xp.1.bytes)).1, (serveStep opt base xp.2 (Inp.ofBytes xp.1.bytes)).2.1)) := by
+  intro l
+  induction l with
+  | nil => intro i _ _ _; rfl
+  | cons xp t ih =>
+    intro i hi hk hd
+    obtain ⟨x, p⟩ := xp
+    have hks := hk (x, p) List.mem_cons_self
+    obtain ⟨i', hstep, hdat, hlive⟩ := serveStep_exact opt base p x hks ((t.map (fun xp => xp.1.bytes)).flatten) i hi
+      (by simpa using hd)
+    obtain ⟨i0, hstep0, _, _⟩ := serveStep_exact opt base p x hks [] (Inp.ofBytes x.bytes) ⟨rfl, rfl⟩ (by simp [Inp.ofBytes])
+    simp only [List.map_cons, serveConn]
+    rw [hstep, hstep0]
+    simp only [if_true]
+    rw [ih i' hlive (fun xp h => hk xp (List.mem_cons_of_mem _ h)) hdat]
 
 /-! ## many clients in flight: each receives the response to its own request -/
 
@@ -129,86 +238,164 @@ theorem header_lookup_case_insensitive (H : Dic) (n n' : Bytes) (h : lowerAscii 
 
 /-! ## responses: what the handler produced is what `Http::request` returns -/
 
-/-- the response as the client must see it: same status code, same protocol, same body bytes, every header the
-handler set retrievable under its name, and no socket error -/
-structure SeesResponse (r : Response) (code : Nat) (proto : Bytes) (sent : List (Bytes × Bytes)) (body : Bytes) : Prop where
+/-- status codes for which `Http::request` returns the response it read: not the interim 100 (skipped), and not a
+redirection that the client follows by default (301, 302, 307, 308: `followRedirects`, `Location`) -/
+def ReturnedAsIs (code : Nat) : Prop := code ≠ 100 ∧ code ≠ 301 ∧ code ≠ 302 ∧ code ≠ 307 ∧ code ≠ 308
+
+/-- the response as the client must see it: same status code, same protocol, same body bytes, no socket error, and the
+headers EXACTLY the dictionary that was sent (`r.headers = sent`, hence also every header retrievable under its name) -/
+structure SeesResponse (r : Response) (code : Nat) (proto : Bytes) (sent : Dic) (body : Bytes) : Prop where
   code : r.code = code
   proto : r.proto = proto
   body : r.body = body
   noError : r.sockError = []
-  headers : ∀ nv ∈ sent, (∀ other ∈ sent, capitalized other.1 = capitalized nv.1 → other = nv) → header r.headers nv.1 = nv.2
+  headers : r.headers = sent
 
 /-- the message the server writes for a handler that `put()` a body: status line, the handler's headers plus the
 Content-Length that `put` sets -/
 def putResponse (proto : Bytes) (code : Nat) (hs : Dic) (body : Bytes) : Msg :=
   ⟨statusLine proto code, setHeader hs sContentLength (utoa body.length), body⟩
 
-/-- **frame_roundtrip (responses with a length).**  A response whose body was `put()` — any status code, any header
-set, a body of any length — is returned by the client's reader exactly, for every fragmentation of the stream. -/
+/-- the handler's dictionary: built by `setHeader` (sorted, capitalized names, well-formed lines), no framing header of
+its own -/
+structure HandlerHeaders (hs : Dic) : Prop where
+  canon : Canon hs
+  noFraming : NoFraming hs
+
+theorem put_dict {hs : Dic} (h : HandlerHeaders hs) (body : Bytes) (hb : body.length < 2147483648) :
+    Canon (setHeader hs sContentLength (utoa body.length)) ∧
+    dicGet (setHeader hs sContentLength (utoa body.length)) sContentLength = some (utoa body.length) ∧
+    dicGet (setHeader hs sContentLength (utoa body.length)) sTransferEncoding = none := by
+  refine ⟨canon_setHeader h.canon wf_name_cl (wf_digits_value _) ?_, ?_, ?_⟩
+  · have := utoa_length body.length hb
+    unfold FitsLine; simp [sContentLength]; omega
+  · have := dicGet_setHeader_same hs sContentLength (utoa body.length) (utoa_ne_nil _)
+    rwa [cap_cl] at this
+  · rw [dicGet_setHeader_other hs sContentLength _ sTransferEncoding (utoa_ne_nil _) (by rw [cap_cl]; decide)]
+    exact dicGet_none_of_keys (canon_key_ne h.canon (fun x hx => (h.noFraming x hx).2))
+
+/-- **frame_roundtrip (responses with a length).**  A response whose body was `put()` — any status code that the client
+returns as is, any header dictionary, a body of any length — is returned by the client's reader exactly (status,
+protocol, the very same header dictionary, body), for every fragmentation of the stream. -/
 theorem response_roundtrip (proto : Bytes) (code : Nat) (hs : Dic) (body rest : Bytes) (cuts : List Nat)
-    (hp : IsProto proto) (hcode : code < 2147483648) (hwf : WFHeaders hs) (hres : NoFraming hs) (hbody : body.length < 2147483648) :
+    (hp : IsProto proto) (hcode : code < 2147483648) (hret : ReturnedAsIs code) (hh : HandlerHeaders hs)
+    (hbody : body.length < 2147483648) :
     ∃ (r : Response) (i' : Inp),
       readResponse (Inp.ofBytes (serialize (putResponse proto code hs body) ++ rest) cuts) = (r, i') ∧
       i'.data = rest ∧ Live i' ∧
       SeesResponse r code proto (setHeader hs sContentLength (utoa body.length)) body := by
-  obtain ⟨hfr, hmem⟩ := put_framed sendBlock hs body sendBlock_pos hwf hres
-  have hwf' : WFHeaders (setHeader hs sContentLength (utoa body.length)) := by
-    intro x hx
-    rcases hmem x hx with h | h
-    · subst h
-      refine ⟨wf_name_cl, wf_digits_value _, ?_⟩
-      have := utoa_length body.length hbody
-      unfold FitsLine; simp [sContentLength]; omega
-    · exact hwf x h
-  obtain ⟨hp0, hpsp, hplen⟩ := proto_ok hp
-  have hcm := codeMsg_ok code
-  have hwire : (Inp.ofBytes (serialize (putResponse proto code hs body) ++ rest) cuts).data =
-      proto ++ [32] ++ utoa code ++ [32] ++ codeMsg code ++ crlf ++ headerLines (setHeader hs sContentLength (utoa body.length)) ++ crlf ++
-        writeBody (isChunked (setHeader hs sContentLength (utoa body.length))) sendBlock body ++ rest := by
-    simp [Inp.ofBytes, serialize, serializeWith, putResponse, headerBlock, statusLine_eq, List.append_assoc]
-  obtain ⟨i', hread, hdat, hlive⟩ := readResponse_wire sendBlock sendBlock_pos sendBlock_lt proto (codeMsg code) code _ _ body rest
-    hp0 hpsp hcm.1 (by have := utoa_length code hcode; omega) hwf' hfr _ ⟨rfl, rfl⟩ hwire
-  refine ⟨_, i', hread, hdat, hlive, ⟨rfl, rfl, rfl, rfl, ?_⟩⟩
-  intro nv hnv huniq
-  have := norm_lookup _ [] nv (fun x hx => (hwf' x hx).2.1.1) hnv huniq
-  show header (norm _) nv.1 = nv.2
-  unfold header norm
-  rw [this]; rfl
+  obtain ⟨hD, hcl, hte⟩ := put_dict hh body hbody
+  obtain ⟨_, hnc⟩ := framed_len_canon sendBlock hD body hcl hte hbody
+  obtain ⟨i', hread, hdat, hlive⟩ := readResponse_dict proto code _ body body rest hp hcode hret.1 hD hcl hte hbody rfl
+    (Inp.ofBytes (serialize (putResponse proto code hs body) ++ rest) cuts) ⟨rfl, rfl⟩
+    (by simp [Inp.ofBytes, serialize, serializeWith, putResponse, hnc, writeBody_plain sendBlock sendBlock_pos])
+  exact ⟨_, i', hread, hdat, hlive, ⟨rfl, rfl, rfl, rfl, rfl⟩⟩
 
 /-- **frame_roundtrip (streamed, chunked responses).**  A handler that sets `Transfer-Encoding: chunked`, streams any
 list of parts through `write(part)` (each cut into blocks, each block a chunk) and ends with the last chunk: the client
-returns the concatenation of the parts, for every block size in force and every fragmentation. -/
+returns the concatenation of the parts and the very same header dictionary, for every fragmentation. -/
 theorem stream_roundtrip (proto : Bytes) (code : Nat) (hs : Dic) (parts : List Bytes) (rest : Bytes) (cuts : List Nat)
-    (hp : IsProto proto) (hcode : code < 2147483648) (hwf : WFHeaders hs) (hres : NoFraming hs) :
+    (hp : IsProto proto) (hcode : code < 2147483648) (hret : ReturnedAsIs code) (hh : HandlerHeaders hs) :
     ∃ (r : Response) (i' : Inp),
       readResponse (Inp.ofBytes (serializeStream sendBlock (statusLine proto code) (setHeader hs sTransferEncoding sChunked) parts true ++ rest) cuts)
         = (r, i') ∧
       i'.data = rest ∧ Live i' ∧
       SeesResponse r code proto (setHeader hs sTransferEncoding sChunked) parts.flatten := by
-  obtain ⟨hfr, hmem⟩ := stream_framed sendBlock hs parts hwf hres
-  have hwf' : WFHeaders (setHeader hs sTransferEncoding sChunked) := by
-    intro x hx
-    rcases hmem x hx with h | h
-    · subst h
-      exact ⟨wf_name_te, wf_value_chunked, by unfold FitsLine; decide⟩
-    · exact hwf x h
-  obtain ⟨hp0, hpsp, hplen⟩ := proto_ok hp
-  have hcm := codeMsg_ok code
-  have hwire : (Inp.ofBytes (serializeStream sendBlock (statusLine proto code) (setHeader hs sTransferEncoding sChunked) parts true ++ rest) cuts).data =
-      proto ++ [32] ++ utoa code ++ [32] ++ codeMsg code ++ crlf ++ headerLines (setHeader hs sTransferEncoding sChunked) ++ crlf ++
-        ((parts.map (writeBody (isChunked (setHeader hs sTransferEncoding sChunked)) sendBlock)).flatten ++ lastChunk) ++ rest := by
-    simp [Inp.ofBytes, serializeStream, headerBlock, statusLine_eq, List.append_assoc]
-  obtain ⟨i', hread, hdat, hlive⟩ := readResponse_wire sendBlock sendBlock_pos sendBlock_lt proto (codeMsg code) code _ _ _ rest
-    hp0 hpsp hcm.1 (by have := utoa_length code hcode; omega) hwf' hfr _ ⟨rfl, rfl⟩ hwire
-  refine ⟨_, i', hread, hdat, hlive, ⟨rfl, rfl, rfl, rfl, ?_⟩⟩
-  intro nv hnv huniq
-  have := norm_lookup _ [] nv (fun x hx => (hwf' x hx).2.1.1) hnv huniq
-  show header (norm _) nv.1 = nv.2
-  unfold header norm
-  rw [this]; rfl
+  have hD : Canon (setHeader hs sTransferEncoding sChunked) :=
+    canon_setHeader hh.canon wf_name_te wf_value_chunked (by unfold FitsLine; decide)
+  have hte : dicGet (setHeader hs sTransferEncoding sChunked) sTransferEncoding = some sChunked := by
+    have := dicGet_setHeader_same hs sTransferEncoding sChunked (by decide)
+    rwa [cap_te] at this
+  have hcl : dicGet (setHeader hs sTransferEncoding sChunked) sContentLength = none := by
+    rw [dicGet_setHeader_other hs sTransferEncoding _ sContentLength (by decide) (by rw [cap_te]; decide)]
+    exact dicGet_none_of_keys (canon_key_ne hh.canon (fun x hx => (hh.noFraming x hx).1))
+  have hchunk : isChunked (setHeader hs sTransferEncoding sChunked) = true := by
+    unfold isChunked; rw [(header_of_dicGet_none cap_cl hcl).1]; rfl
+  obtain ⟨i', hread, hdat, hlive⟩ := readResponse_dict_chunked proto code _ parts rest hp hcode hret.1 hD hcl hte
+    (Inp.ofBytes (serializeStream sendBlock (statusLine proto code) (setHeader hs sTransferEncoding sChunked) parts true ++ rest) cuts)
+    ⟨rfl, rfl⟩ (by simp [Inp.ofBytes, serializeStream, hchunk, List.append_assoc])
+  exact ⟨_, i', hread, hdat, hlive, ⟨rfl, rfl, rfl, rfl, rfl⟩⟩
 
+/-- what the server writes for a file response to `Range: bytes=b-e` that `putFile` accepts as bytes `b'..e'` -/
+def fileRangeHeaders (hs : Dic) (b' e' n : Nat) : Dic :=
+  setHeader (setHeader hs sContentLength (utoa (e' - b' + 1))) sContentRange (contentRangeText b' e' n)
 
-/-! ## several exchanges on one connection -/
+/-- **file_response_roundtrip.**  A file body with a byte range: when `putFile` accepts `Range: bytes=b-e` on a file of
+`n` bytes as `b'..e'` (`rangeOf`, see `range_spec`), the response it writes — status 206, `Content-Length`, `Content-Range`,
+the file read in 16000-byte blocks — is read back by the client as exactly: code 206, the announced length `e'-b'+1`, the
+announced range `bytes b'-e'/n`, the very same header dictionary, and as body exactly bytes `b'..e'` of the file. -/
+theorem file_response_roundtrip (proto : Bytes) (hs : Dic) (content rest : Bytes) (b e : Int) (b' e' : Nat) (cuts : List Nat)
+    (hp : IsProto proto) (hh : HandlerHeaders hs) (hnr : ∀ x ∈ hs, capitalized x.1 ≠ sContentRange)
+    (hn : content.length < 2147483648) (hr : rangeOf content.length b e = some (b', e')) :
+    ∃ (r : Response) (i' : Inp),
+      readResponse (Inp.ofBytes (headerBlock (statusLine proto 206) (fileRangeHeaders hs b' e' content.length) ++
+          writeFile (isChunked (fileRangeHeaders hs b' e' content.length)) sendBlock recvBlock (fileSlice content b' e') ++ rest) cuts) = (r, i') ∧
+      i'.data = rest ∧ Live i' ∧
+      SeesResponse r 206 proto (fileRangeHeaders hs b' e' content.length) ((content.drop b').take (e' - b' + 1)) ∧
+      header r.headers sContentLength = utoa (e' - b' + 1) ∧
+      header r.headers sContentRange = contentRangeText b' e' content.length := by
+  obtain ⟨hr1, hr2, hr3⟩ := rangeOf_some hr
+  have hrange : b' ≤ e' ∧ e' < content.length := ⟨hr1, hr2⟩
+  have hslice : fileSlice content b' e' = (content.drop b').take (e' - b' + 1) := by
+    unfold fileSlice
+    by_cases hc : b' ≠ e' ∨ b' > 0
+    · rw [if_pos hc]
+    · rw [if_neg hc]
+      have hb0 : b' = 0 := by omega
+      have he0 : e' = 0 := by omega
+      subst hb0; subst he0
+      have : content.length = 1 := hr3 rfl
+      simp only [List.drop_zero, Nat.sub_self, Nat.zero_add]
+      rw [← this, List.take_length]
+  have hlen : ((content.drop b').take (e' - b' + 1)).length = e' - b' + 1 := by
+    rw [List.length_take, List.length_drop]; omega
+  have hfit : ∀ k, k ≤ content.length → (utoa k).length ≤ 10 := fun k hk => utoa_length k (by omega)
+  -- the dictionary
+  have hD1 : Canon (setHeader hs sContentLength (utoa (e' - b' + 1))) :=
+    canon_setHeader hh.canon wf_name_cl (wf_digits_value _) (by
+      have := hfit (e' - b' + 1) (by omega); unfold FitsLine; simp [sContentLength]; omega)
+  have hcrwf := contentRange_wf b' e' content.length
+  have hD : Canon (fileRangeHeaders hs b' e' content.length) :=
+    canon_setHeader hD1 (by refine ⟨by decide, ?_⟩; decide) hcrwf.1 (by
+      have h1 := hfit b' (by omega); have h2 := hfit e' (by omega); have h3 := hfit content.length (Nat.le_refl _)
+      have := hcrwf.2; unfold FitsLine; simp [sContentRange]; omega)
+  have hcrne := hcrwf.1.1
+  have hcapcr : capitalized sContentRange = sContentRange := by decide
+  have hcl : dicGet (fileRangeHeaders hs b' e' content.length) sContentLength = some (utoa ((content.drop b').take (e' - b' + 1)).length) := by
+    rw [hlen]
+    unfold fileRangeHeaders
+    rw [dicGet_setHeader_other _ sContentRange _ sContentLength hcrne (by rw [hcapcr]; decide)]
+    have := dicGet_setHeader_same hs sContentLength (utoa (e' - b' + 1)) (utoa_ne_nil _)
+    rwa [cap_cl] at this
+  have hte : dicGet (fileRangeHeaders hs b' e' content.length) sTransferEncoding = none := by
+    unfold fileRangeHeaders
+    rw [dicGet_setHeader_other _ sContentRange _ sTransferEncoding hcrne (by rw [hcapcr]; decide),
+      dicGet_setHeader_other hs sContentLength _ sTransferEncoding (utoa_ne_nil _) (by rw [cap_cl]; decide)]
+    exact dicGet_none_of_keys (canon_key_ne hh.canon (fun x hx => (hh.noFraming x hx).2))
+  have hcr : dicGet (fileRangeHeaders hs b' e' content.length) sContentRange = some (contentRangeText b' e' content.length) := by
+    have := dicGet_setHeader_same (setHeader hs sContentLength (utoa (e' - b' + 1))) sContentRange (contentRangeText b' e' content.length) hcrne
+    rwa [hcapcr] at this
+  have hbfit : ((content.drop b').take (e' - b' + 1)).length < 2147483648 := by rw [hlen]; omega
+  obtain ⟨_, hnc⟩ := framed_len_canon sendBlock hD _ hcl hte hbfit
+  obtain ⟨i', hread, hdat, hlive⟩ := readResponse_dict proto 206 _ ((content.drop b').take (e' - b' + 1)) _ rest hp (by decide) (by decide)
+    hD hcl hte hbfit rfl
+    (Inp.ofBytes (headerBlock (statusLine proto 206) (fileRangeHeaders hs b' e' content.length) ++
+          writeFile (isChunked (fileRangeHeaders hs b' e' content.length)) sendBlock recvBlock (fileSlice content b' e') ++ rest) cuts) ⟨rfl, rfl⟩
+    (by simp [Inp.ofBytes, hnc, hslice, writeFile_plain sendBlock recvBlock sendBlock_pos recvBlock_pos])
+  refine ⟨_, i', hread, hdat, hlive, ⟨rfl, rfl, rfl, rfl, rfl⟩, ?_, ?_⟩
+  · have := (header_of_dicGet cap_cl hcl).1
+    rw [hlen] at this; exact this
+  · exact (header_of_dicGet hcapcr hcr).1
+
+/-- **continue_skipped.**  `Expect: 100-continue`: the server answers the request headers with the interim
+`HTTP/1.1 100 Continue` (`interimOf`, part of what `serveStep` writes); the client (after the repair 0d3eb94) skips it: a
+final response that follows the interim one is read exactly as if it stood alone. -/
+theorem continue_skipped (i : Inp) (hi : Live i) (rest : Bytes) (hd : i.data = sInterim100 ++ rest)
+    (c : Nat) (p : Bytes) (h : Dic) (i2 : Inp) (hhead : readResponseHead (i.advance 25) = some (c, p, h, i2)) (hc : c ≠ 100) :
+    readResponse i = readResponse (i.advance 25) ∧ (i.advance 25).data = rest :=
+  ⟨readResponse_after_continue i hi rest hd c p h i2 hhead hc, by simp [hd, sInterim100]⟩
+
+/-! ## the whole exchange: library client → library server → library client -/
 
 /-- a client request as data -/
 structure Sent where
@@ -220,90 +407,119 @@ structure Sent where
   body : Bytes
 
 def Sent.wire (s : Sent) : Bytes := serialize (clientMsg s.method s.target s.host s.port true s.hs s.body)
-
+def Sent.toWire (s : Sent) : Wire := clientWire s.method s.target s.host s.port s.hs s.body
 def Sent.expected (s : Sent) : Request := expectedRequest s.method s.target s.host s.port s.hs s.body
 
-/-- a request after which the server reads the connection again: well formed, a target with a path, no `Connection`
-header (HTTP/1.1 keeps the connection), and not an OPTIONS request that the library answers itself -/
-structure Sent.Keeps (opt : Bool) (s : Sent) : Prop where
-  wf : WFRequest s.method s.target s.host s.port s.hs s.body
-  hasPath : (splitTarget s.target).1 ≠ []
-  noConnection : ∀ nv ∈ s.hs, capitalized nv.1 ≠ sConnection
-  handled : ¬ (s.method = sOPTIONS ∧ opt = true)
+/-- the header dictionary the server sends for a handler that set `p.headers` and `put()` a body of `n` bytes: the echo of
+`Connection: keep-alive` if the request had it, the handler's headers in the order set, `Content-Length`, and `Allow` for
+status 405 -/
+def servedHeaders (q : Request) (p : Plan) (n : Nat) : Dic :=
+  withAllow p.code (setHeader (handlerHeaders q p) sContentLength (utoa n))
 
-/-- one turn of the server loop on a connection whose pending bytes start with a request: the handler gets exactly
-that request, the response is the one for that request alone, the connection is kept and positioned after it -/
-theorem serveStep_exact (opt : Bool) (base : Bytes) (p : Plan) (s : Sent) (hs : s.Keeps opt) (rest : Bytes) (i : Inp) (hi : Live i)
-    (hd : i.data = s.wire ++ rest) :
-    ∃ i' : Inp, serveStep opt base p i = (some s.expected, (serve1 opt s.expected p [] base).wire, true, i') ∧
-      i'.data = rest ∧ Live i' := by
-  obtain ⟨i', hread, hdat, hlive, hwf'⟩ := request_exact s.method s.target s.host s.port s.hs s.body rest hs.wf i hi hd
-  have hne : i.data.isEmpty = false := by
-    rw [hd]
-    obtain ⟨a, t, hm⟩ := List.exists_cons_of_ne_nil hs.wf.wfMethod.1
-    simp [Sent.wire, serialize, serializeWith, clientMsg, headerBlock, hm]
-  have hvalid : s.expected.valid = true := by
-    have h1 : s.method.isEmpty = false := by
-      obtain ⟨a, t, hm⟩ := List.exists_cons_of_ne_nil hs.wf.wfMethod.1; rw [hm]; rfl
-    have h2 : (splitTarget s.target).1.isEmpty = false := by
-      obtain ⟨a, t, hm⟩ := List.exists_cons_of_ne_nil hs.hasPath; rw [hm]; rfl
-    simp [Request.valid, Sent.expected, expectedRequest, h1, h2, sHttp11]
-  have hconn : header s.expected.headers sConnection = [] := by
-    refine (header_norm_absent sConnection (by decide) _ ?_).2
-    intro x hx
-    refine ⟨(hwf' x hx).2.1.1, ?_⟩
-    rcases List.mem_cons.mp hx with h | h
-    · subst h; show capitalized sHostName ≠ sConnection; decide
-    · by_cases hb0 : s.body.length = 0
-      · have : x ∈ s.hs := by simpa [clientMsg, hb0] using h
-        exact hs.noConnection x this
-      · have hx' : x ∈ dicSet s.hs sContentLength (utoa s.body.length) := by
-          have := h
-          simp only [clientMsg, hb0, ne_eq, not_false_eq_true, if_true] at this
-          rw [setHeader_of_value (utoa_ne_nil _), cap_cl] at this
-          exact this
-        rcases mem_dicSet hx' with h | h
-        · subst h; show capitalized sContentLength ≠ sConnection; decide
-        · exact hs.noConnection x h
-  obtain ⟨hcalled, hkeep⟩ := serveOne_flags sendBlock recvBlock opt s.expected p [] base rfl hconn hs.handled
-  refine ⟨i', ?_, hdat, hlive⟩
-  unfold serveStep
-  simp only [hne, live_dead hi, Bool.false_eq_true, or_self, if_false]
-  rw [hread]
-  simp only [Sent.expected] at hvalid
-  simp only [hvalid, hlive.2, hlive.1, not_true_eq_false, Bool.false_eq_true, or_self, if_false]
-  unfold serve1
-  simp only [Sent.expected] at hcalled hkeep
-  simp [hcalled, hkeep, Sent.expected]
+theorem handlerHeaders_ok (q : Request) (p : Plan) (hw : WFHeaders p.headers) (hn : NoFraming p.headers) :
+    HandlerHeaders (handlerHeaders q p) := by
+  have hb : Canon (baseHeaders q) ∧ NoFraming (baseHeaders q) := by
+    unfold baseHeaders
+    split
+    · refine ⟨canon_setHeader canon_nil ?_ ?_ ?_, noframing_setHeader (by decide) (by intro x hx; simp at hx) (by decide)⟩
+      · refine ⟨by decide, ?_⟩; decide
+      · unfold WFValue; decide
+      · unfold FitsLine; decide
+    · exact ⟨canon_nil, by intro x hx; simp at hx⟩
+  exact ⟨canon_foldl p.headers _ hb.1 hw, noframing_foldl p.headers _ hb.2 hn (fun x hx => (hw x hx).2.1.1)⟩
 
-/-- **keepalive_seq.**  Requests sent one after the other on the same connection — pipelined or not, in any
-fragmentation (`i` is any live connection state) — are served exactly as if each had arrived alone on a fresh
-connection: the reader consumes exactly one message per turn. -/
-theorem keepalive_seq (opt : Bool) (base : Bytes) : ∀ (l : List (Sent × Plan)) (i : Inp), Live i →
-    (∀ sp ∈ l, sp.1.Keeps opt) → i.data = (l.map (fun sp => sp.1.wire)).flatten →
-    serveConn opt base (l.map (·.2)) i =
-      l.map (fun sp => ((serveStep opt base sp.2 (Inp.ofBytes sp.1.wire)).1, (serveStep opt base sp.2 (Inp.ofBytes sp.1.wire)).2.1)) := by
-  intro l
-  induction l with
-  | nil => intro i _ _ _; rfl
-  | cons sp t ih =>
-    intro i hi hk hd
-    obtain ⟨s, p⟩ := sp
-    have hks := hk (s, p) List.mem_cons_self
-    obtain ⟨i', hstep, hdat, hlive⟩ := serveStep_exact opt base p s hks ((t.map (fun sp => sp.1.wire)).flatten) i hi
-      (by simpa using hd)
-    obtain ⟨i0, hstep0, _, _⟩ := serveStep_exact opt base p s hks [] (Inp.ofBytes s.wire) ⟨rfl, rfl⟩ (by simp [Inp.ofBytes])
-    simp only [List.map_cons, serveConn]
-    rw [hstep, hstep0]
-    simp only [if_true]
-    rw [ih i' hlive (fun sp h => hk sp (List.mem_cons_of_mem _ h)) hdat]
-
+/-- **exchange_roundtrip.**  The composition the driver runs, as a theorem: the library's client serializes a request
+(any method, target with a path, header set without `Expect`, body of any length below 2^31), the server-side reader
+parses it (any fragmentation `cuts1`), the handler — which gets EXACTLY that request — sets any headers, any status code
+that the client returns as is, and `put()`s any body below 2^31 bytes, the server writes the response, the client's reader
+parses it (any fragmentation `cuts2`): the client gets exactly the handler's status code, exactly the body bytes, and as
+headers exactly the dictionary the server sent (the handler's headers with `Content-Length`, plus the `Connection` echo
+and `Allow` for 405), so every header the handler set is found under its name. -/
+theorem exchange_roundtrip (opt : Bool) (base : Bytes) (s : Sent) (p : Plan) (b : Bytes) (cuts1 cuts2 : List Nat)
+    (hs : WFRequest s.method s.target s.host s.port s.hs s.body) (hpath : (splitTarget s.target).1 ≠ [])
+    (hnoexp : ∀ nv ∈ s.hs, capitalized nv.1 ≠ sExpect) (hopt : ¬ (s.method = sOPTIONS ∧ opt = true))
+    (hk : p.kind = .bytes b) (hph : WFHeaders p.headers) (hpn : NoFraming p.headers)
+    (hb : b.length < 2147483648) (hcode : p.code < 2147483648) (hret : ReturnedAsIs p.code) :
+    ∃ (i1 : Inp) (r : Response) (i2 : Inp),
+      readRequest (Inp.ofBytes s.wire cuts1) = (s.expected, i1) ∧ i1.data = [] ∧
+      (serve1 opt s.expected p [] base).called = true ∧
+      readResponse (Inp.ofBytes (interimOf s.expected.headers ++ (serve1 opt s.expected p [] base).wire) cuts2) = (r, i2) ∧
+      i2.data = [] ∧
+      SeesResponse r p.code sHttp11 (servedHeaders s.expected p b.length) b ∧
+      (∀ nv ∈ p.headers, (∀ other ∈ p.headers, capitalized other.1 = capitalized nv.1 → other = nv) →
+        capitalized nv.1 ≠ sAllow → header r.headers nv.1 = nv.2) := by
+  -- the request
+  obtain ⟨i1, hread, hdat1, _, hwfw⟩ := request_exact s.method s.target s.host s.port s.hs s.body [] hs
+    (Inp.ofBytes s.wire cuts1) ⟨rfl, rfl⟩ (by simp [Inp.ofBytes, Sent.wire])
+  -- no interim answer
+  have hexp : interimOf s.expected.headers = [] := by
+    apply interimOf_none
+    have : header s.expected.headers sExpect = [] := by
+      refine (header_norm_absent sExpect (by decide) _ ?_).2
+      intro x hx
+      refine ⟨(hwfw x hx).2.1.1, ?_⟩
+      rcases List.mem_cons.mp hx with h | h
+      · subst h; show capitalized sHostName ≠ sExpect; decide
+      · by_cases hb0 : s.body.length = 0
+        · have : x ∈ s.hs := by simpa [clientMsg, hb0] using h
+          exact hnoexp x this
+        · have hx' : x ∈ dicSet s.hs sContentLength (utoa s.body.length) := by
+            have := h
+            simp only [clientMsg, hb0, ne_eq, not_false_eq_true, if_true] at this
+            rw [setHeader_of_value (utoa_ne_nil _), cap_cl] at this
+            exact this
+          rcases mem_dicSet hx' with h | h
+          · subst h; show capitalized sContentLength ≠ sExpect; decide
+          · exact hnoexp x h
+    rw [this]; decide
+  -- the response dictionary
+  have hH := handlerHeaders_ok s.expected p hph hpn
+  obtain ⟨hD0, hcl0, hte0⟩ := put_dict hH b hb
+  have hD : Canon (servedHeaders s.expected p b.length) ∧
+      dicGet (servedHeaders s.expected p b.length) sContentLength = some (utoa b.length) ∧
+      dicGet (servedHeaders s.expected p b.length) sTransferEncoding = none ∧
+      (∀ K, K ≠ sAllow → dicGet (servedHeaders s.expected p b.length) K =
+        dicGet (setHeader (handlerHeaders s.expected p) sContentLength (utoa b.length)) K) := by
+    unfold servedHeaders withAllow
+    split
+    · have hcapA : capitalized sAllow = sAllow := by decide
+      refine ⟨canon_setHeader hD0 (by refine ⟨by decide, ?_⟩; decide) (by unfold WFValue; decide) (by unfold FitsLine; decide), ?_, ?_, ?_⟩
+      · rw [dicGet_setHeader_other _ sAllow _ sContentLength (by decide) (by rw [hcapA]; decide)]; exact hcl0
+      · rw [dicGet_setHeader_other _ sAllow _ sTransferEncoding (by decide) (by rw [hcapA]; decide)]; exact hte0
+      · intro K hK; exact dicGet_setHeader_other _ sAllow _ K (by decide) (by rw [hcapA]; exact hK)
+    · exact ⟨hD0, hcl0, hte0, fun _ _ => rfl⟩
+  have hproto : respProto s.expected = sHttp11 := by
+    unfold respProto; simp [Sent.expected, expectedRequest, Wire.expected, clientWire, sHttp11, sHttp10]
+  have hopt' : ¬ (s.expected.method = sOPTIONS ∧ opt = true) := hopt
+  have hwire : (serve1 opt s.expected p [] base).wire =
+      serializeWith sendBlock ⟨statusLine sHttp11 p.code, servedHeaders s.expected p b.length, b⟩ := by
+    unfold serve1; rw [serveOne_bytes sendBlock recvBlock opt s.expected p [] base b hopt' hk, hproto]; rfl
+  have hcalled : (serve1 opt s.expected p [] base).called = true := by
+    unfold serve1; rw [serveOne_called]
+    cases opt with
+    | false => simp
+    | true =>
+      have : ¬ s.expected.method = sOPTIONS := fun h => hopt ⟨h, rfl⟩
+      simp [this]
+  obtain ⟨_, hnc⟩ := framed_len_canon sendBlock hD.1 b hD.2.1 hD.2.2.1 hb
+  obtain ⟨i2, hresp, hdat2, _⟩ := readResponse_dict sHttp11 p.code _ b b [] (Or.inl rfl) hcode hret.1 hD.1 hD.2.1 hD.2.2.1 hb rfl
+    (Inp.ofBytes (interimOf s.expected.headers ++ (serve1 opt s.expected p [] base).wire) cuts2) ⟨rfl, rfl⟩
+    (by rw [hexp, hwire]; simp [Inp.ofBytes, serializeWith, hnc, writeBody_plain sendBlock sendBlock_pos])
+  refine ⟨i1, _, i2, hread, hdat1, hcalled, hresp, hdat2, ⟨rfl, rfl, rfl, rfl, rfl⟩, ?_⟩
+  intro nv hnv huniq hna
+  show header (servedHeaders s.expected p b.length) nv.1 = nv.2
+  unfold header
+  have hne : capitalized nv.1 ≠ capitalized sContentLength := by rw [cap_cl]; exact (hpn nv hnv).1
+  rw [hD.2.2.2 _ hna, dicGet_setHeader_other _ sContentLength _ _ (utoa_ne_nil _) hne]
+  have := norm_lookup p.headers (baseHeaders s.expected) nv (fun x hx => (hph x hx).2.1.1) hnv huniq
+  unfold handlerHeaders
+  rw [this]; rfl
 
 /-! ## the sender's chunk framing is RFC 7230 chunked transfer coding -/
 
 /-- **sender conformance.**  What `write(part)` puts on the wire for any list of parts and any block size, followed
 by the last chunk, is a chunked body in the sense of RFC 7230 whose payload is the concatenation of the parts. -/
-theorem sender_chunked_conforms (blk : Nat) (hb : 0 < blk) (hb2 : blk < 4294967296) : ∀ parts : List Bytes,
+theorem sender_chunked_conforms (blk : Nat) (hb : 0 < blk) (hb2 : blk < 2147483648) : ∀ parts : List Bytes,
     Spec.ChunkedBody ((parts.map (writeBody true blk)).flatten ++ lastChunk) parts.flatten := by
   intro parts
   induction parts with
@@ -315,7 +531,7 @@ theorem sender_chunked_conforms (blk : Nat) (hb : 0 < blk) (hb2 : blk < 42949672
 /-- **reader conformance.**  After headers that announce `Transfer-Encoding: chunked` (and no Content-Length), `readBody`
 returns the payload of EVERY chunked body of the RFC 7230 grammar (size lines in upper or lower case, with leading
 zeros — whoever the sender is), on any live connection, i.e. for every fragmentation, and stops exactly behind it. -/
-theorem reader_accepts_rfc_chunked (H : Dic) (w b rest : Bytes) (hcb : Spec.ChunkedBody w b) (hb : b.length < 4294967296)
+theorem reader_accepts_rfc_chunked (H : Dic) (w b rest : Bytes) (hcb : Spec.ChunkedBody w b) (hb : b.length < 2147483648)
     (hcl : hasHeader H sContentLength = false) (hte : header H sTransferEncoding = sChunked)
     (i : Inp) (hi : Live i) (hd : i.data = w ++ rest) :
     ∃ i' : Inp, readBody H i = (b, i') ∧ i'.data = rest ∧ Live i' := by
@@ -328,6 +544,12 @@ theorem reader_accepts_rfc_chunked (H : Dic) (w b rest : Bytes) (hcb : Spec.Chun
     if_true, atoi, digitLoop]
   rw [heq]
   simp [hbl]
+
+/-- the same as a `BodyReads` fact: a request or response whose body is any RFC 7230 chunked body is inside
+`wire_request_exact`, `serveStep_exact` and `keepalive_seq` -/
+theorem reads_of_rfc_chunked (H : Dic) (w b : Bytes) (hcb : Spec.ChunkedBody w b) (hb : b.length < 2147483648)
+    (hcl : hasHeader H sContentLength = false) (hte : header H sTransferEncoding = sChunked) : BodyReads H w b :=
+  fun i rest hi hd => reader_accepts_rfc_chunked H w b rest hcb hb hcl hte i hi hd
 
 /-! ## the blocking socket loops complete partial transfers -/
 
@@ -408,7 +630,7 @@ def exampleSent : Sent :=
   { method := [71, 69, 84], target := [47, 97, 63, 120, 61, 49], host := [49, 50, 55, 46, 48, 46, 48, 46, 49], port := 8080,
     hs := [([88, 45, 65], [118, 32, 49])], body := [0, 13, 10] }
 
-example : WFRequest exampleSent.method exampleSent.target exampleSent.host exampleSent.port exampleSent.hs exampleSent.body := by
+def exampleSent_wf : WFRequest exampleSent.method exampleSent.target exampleSent.host exampleSent.port exampleSent.hs exampleSent.body := by
   refine ⟨?_, ?_, ?_, ?_, ?_, ?_, ?_, ?_⟩
   · unfold WFWord; decide
   · unfold WFWord; decide
@@ -419,34 +641,46 @@ example : WFRequest exampleSent.method exampleSent.target exampleSent.host examp
   · unfold NoFraming; decide
   · decide
 
-example : exampleSent.Keeps true := by
-  refine ⟨?_, ?_, ?_, ?_⟩
-  · refine ⟨?_, ?_, ?_, ?_, ?_, ?_, ?_, ?_⟩
-    · unfold WFWord; decide
-    · unfold WFWord; decide
-    · decide
-    · unfold WFValue; decide
-    · unfold FitsLine; decide
-    · unfold WFHeaders WFName WFValue FitsLine; decide
-    · unfold NoFraming; decide
-    · decide
-  · decide
-  · decide
-  · intro h; exact absurd h.1 (by decide)
+example : exampleSent.toWire.Keeps :=
+  ⟨clientWire_wf _ _ _ _ _ _ exampleSent_wf, by decide, keepOf_http11 _ rfl (by decide)⟩
 
 /-- the model run on the example: the handler's view of the request carries the 3 body bytes and the header -/
 example : (readRequest (Inp.ofBytes exampleSent.wire [1, 5, 40])).1.body = [0, 13, 10] ∧
     header (readRequest (Inp.ofBytes exampleSent.wire [1, 5, 40])).1.headers [120, 45, 97] = [118, 32, 49] := by decide
 
 /-- `0A CRLF <10 bytes> CRLF 0 CRLF CRLF` (upper case, leading zero) is a chunked body of the grammar -/
-example : Spec.ChunkedBody ([48, 65] ++ [13, 10] ++ [1, 2, 3, 4, 5, 6, 7, 8, 9, 10] ++ [13, 10] ++ [48, 13, 10, 13, 10])
+def exampleChunked : Spec.ChunkedBody ([48, 65] ++ [13, 10] ++ [1, 2, 3, 4, 5, 6, 7, 8, 9, 10] ++ [13, 10] ++ [48, 13, 10, 13, 10])
     ([1, 2, 3, 4, 5, 6, 7, 8, 9, 10] ++ []) :=
   Spec.ChunkedBody.chunk [48, 65] [1, 2, 3, 4, 5, 6, 7, 8, 9, 10] _ _ (by decide) (by decide) (by decide) Spec.ChunkedBody.last
 
+/-- a raw HTTP/1.0 request `PUT /u HTTP/1.0`, `Connection: Keep-Alive`, `Transfer-Encoding: chunked`, with that chunked
+body: kept alive, chunk-framed, not from the library's client — inside `keepalive_seq` -/
+def exampleRaw : Wire :=
+  { method := [80, 85, 84], target := [47, 117], proto := sHttp10,
+    hs := [([67, 111, 110, 110, 101, 99, 116, 105, 111, 110], [75, 101, 101, 112, 45, 65, 108, 105, 118, 101]),
+           ([116, 114, 97, 110, 115, 102, 101, 114, 45, 101, 110, 99, 111, 100, 105, 110, 103], sChunked)],
+    w := [48, 65] ++ [13, 10] ++ [1, 2, 3, 4, 5, 6, 7, 8, 9, 10] ++ [13, 10] ++ [48, 13, 10, 13, 10],
+    body := [1, 2, 3, 4, 5, 6, 7, 8, 9, 10] ++ [] }
+
+example : exampleRaw.Keeps := by
+  refine ⟨⟨?_, ?_, Or.inr rfl, by decide, ?_, ?_⟩, by decide, keepOf_keepalive _ (by decide)⟩
+  · unfold WFWord; decide
+  · unfold WFWord; decide
+  · unfold WFHeaders WFName WFValue FitsLine; decide
+  · exact reads_of_rfc_chunked _ _ _ exampleChunked (by decide) (by decide) (by decide)
+
 example : IsProto sHttp11 := Or.inl rfl
-example : WFHeaders [([88, 45, 65], [118, 32, 49])] ∧ NoFraming [([88, 45, 65], [118, 32, 49])] := by
-  constructor
+
+/-- a handler dictionary `X-A: v 1` -/
+example : HandlerHeaders [([88, 45, 65], [118, 32, 49])] := by
+  refine ⟨⟨?_, ?_, ?_⟩, ?_⟩
+  · exact List.pairwise_singleton _ _
+  · decide
   · unfold WFHeaders WFName WFValue FitsLine; decide
   · unfold NoFraming; decide
+
+example : ReturnedAsIs 404 := by unfold ReturnedAsIs; decide
+
+example : rangeOf 20 5 9 = some (5, 9) := by decide
 
 end C10
